@@ -276,6 +276,10 @@ pub fn run_case(case: &mut Case) {
     let n_sent = if case.thorough { 40 } else { 16 };
     for si in 0..n_sent {
         let mut g = Gen::new(&mut rng);
+        // every fourth sentence carries awkward values (spaces, `=`, bytes that are not UTF-8
+        // for OS-string and path items): which items a value goes to does not depend on it
+        g.hostile = si % 4 == 3;
+        let hostile = g.hostile;
         let d = match crate::deriv::derive(&spec.root, &mut g) {
             Some(d) => d,
             None => {
@@ -289,7 +293,14 @@ pub fn run_case(case: &mut Case) {
         };
         // the same derivation in several spellings
         for _ in 0..2 {
-            let line = render(&units, &mut rng, SpellStyle::Random);
+            // (awkward values are written detached: `-n<bytes that are not UTF-8>` is C02's
+            // known finding F04, not a question of grammar)
+            let style = if hostile {
+                SpellStyle::Canonical
+            } else {
+                SpellStyle::Random
+            };
+            let line = render(&units, &mut rng, style);
             judge(case, &spec, &parser, &line.argv, "sentence", Some(&d.value), h);
             if si == 0 {
                 case.rep.sample(
